@@ -137,6 +137,7 @@ def run(ctx, prop=PROP):
         lines.append('spec ' + line)
         lines.append('specg ' + line)
         lines.append('type ' + line)
+        lines.append('stype ' + line)
     hash_cases = hash_stream(ctx.rng, ctx.tier) if prop == 'C01' else []
     n_prog_lines = len(lines)
     lines += [f'hash {algo} {msg.hex() or "-"}' for algo, msg in hash_cases]
@@ -152,6 +153,7 @@ def run(ctx, prop=PROP):
     ctx.extra['instruction_mix'] = dict(sorted(g.used.items()))
     ctx.extra['boundary_shapes'] = dict(sorted(g.shapes.items()))
     failing = []
+    K = 5      # protocol lines per program: impl, spec, specg, type, stype
     for i, (code, st, env) in enumerate(progs):
         text = json.dumps(code)
         control = any(k in text for k in ('"IF', '"LOOP', '"ITER', '"MAP', '"DIP', '"EXEC'))
@@ -167,9 +169,17 @@ def run(ctx, prop=PROP):
         if model is None:
             impl_m = spec_m = specg_m = None
         else:
-            impl_m, spec_m, specg_m = (parse_model(model[4 * i + k]) for k in range(3))
+            impl_m, spec_m, specg_m = (parse_model(model[K * i + k]) for k in range(3))
             # the generator's own type tracking against the Lean type checker (validates both)
-            tline = model[4 * i + 3]
+            tline = model[K * i + 3]
+            # the static statement (C01.strict_run_eq_reference) on real inputs: how many generated programs satisfy its
+            # hypotheses (`typeInstr true`, literals), and — the theorem — none of them leaves the guard
+            sline = model[K * i + 4]
+            ctx.count('strict-typing', {'strict': 'strictly-typed', 'lax': 'typed-not-strictly'}.get(sline, sline))
+            if sline == 'strict':
+                ctx.count('strictly-typed-with', 'MAP' if '"MAP"' in text else ('lambda' if ('"LAMBDA"' in text or '"lambda"' in text) else 'neither'))
+                if specg_m == ('err', 'offguard'):
+                    ctx.mismatch('strict-guard', {'code': code, 'env': env}, 'inside the guard (strictly typed)', 'offguard')
             if st is None:      # edge stream: arguments outside the typing rule; only the mirror is compared
                 ctx.count('edge-stream', 'ill-typed' if tline == 'ill-typed' else 'typed')
                 if tline != 'ill-typed':
